@@ -26,7 +26,7 @@ RULE = (
 ASSUMPTIONS = ["pickles are exchanged between processes running the same claripy tree only"]
 
 CLASSES = ["Solver", "SolverCacheless", "SolverComposite", "SolverReplacement", "SolverHybrid", "SolverVSA", "SolverConcrete", "SolverStrings"]
-EXACT = {"Solver", "SolverCacheless", "SolverComposite", "SolverStrings"}
+EXACT = {"Solver", "SolverCacheless", "SolverComposite", "SolverStrings", "SolverReplacement", "SolverHybrid"}
 
 
 def floors(tier):
